@@ -252,12 +252,13 @@ var allSchedTypes = []string{
 }
 
 type schedBounds struct {
-	types   []string
-	levels  int  // load levels per store (2: {0,2}, 3: {0,1,2})
-	pending bool // also: one follower of region 1 pending
-	second  bool // also: a second region, role-disjoint with the first (no store holds the same role of both)
-	runCap  int  // run cap per input (0 = default)
-	clones  int  // instead: this many regions with the placement of the first (region draws then have many outcomes: capped)
+	types      []string
+	levels     int  // load levels per store (2: {0,2}, 3: {0,1,2})
+	pending    bool // also: one follower of region 1 pending
+	second     bool // also: a second region, role-disjoint with the first (no store holds the same role of both)
+	runCap     int  // run cap per input (0 = default)
+	allSubsets bool // the region on every store subset (default: the first subset when the stores carry no location labels)
+	clones     int  // instead: this many regions with the placement of the first (region draws then have many outcomes: capped)
 }
 
 func loadVectors(n, levels int) [][]int {
@@ -293,7 +294,7 @@ func schedRegions(e envSpec, all bool) []regionSpec {
 	}
 	for _, s := range ss {
 		for lpos := -1; lpos < k; lpos++ {
-			if (e.Rules < 2) != (lpos == -1) {
+			if (e.Rules != 2 && e.Rules != 3) != (lpos == -1) {
 				continue
 			}
 			var ps []peerSpec
@@ -306,7 +307,7 @@ func schedRegions(e envSpec, all bool) []regionSpec {
 			}
 			voterOnTiFlash := false
 			for _, p := range ps {
-				if p.R == rV && e.kind(p.S) == kTiFlash {
+				if p.R == rV && isTiFlash(e.kind(p.S)) {
 					voterOnTiFlash = true // not a configuration that exists: TiFlash peers are learners
 				}
 			}
@@ -350,7 +351,7 @@ func roleDisjoint(a, b regionSpec, n int) bool {
 func genSched(envs []envSpec, b schedBounds) func(g *genCtx) {
 	return func(g *genCtx) {
 		for _, e := range envs {
-			firsts := schedRegions(e, false)
+			firsts := schedRegions(e, b.allSubsets)
 			var seconds []regionSpec
 			if b.second {
 				seconds = schedRegions(e, true)
